@@ -994,6 +994,57 @@ pub fn units() -> Vec<Unit> {
             Fn("Mac::get_fcnt_up"),
         ],
     },
+    // ---- builder U (tie A for the downlink MAC-command iterator and the payload accessors)
+    // C03 / C08: what `parse_downlink_mac_commands` yields and what `handle_downlink_macs` reads of it.  The payload
+    // structs, `new_from_raw`, `max_len` and `MacCommandSet::parse_one` are expanded from the `quote!` templates of the
+    // `CommandHandler` derive (maccmd.rs) with the `#[cmd(cid, len)]` attributes of `DownlinkMacCommand`;
+    // `MacCommands::next` is the source's, for `T = DownlinkMacCommand`.  The accessors are the source's
+    // (`channel_index`: `create_value_reader_fn!` expanded from the macro_rules body), with the helper types of
+    // types.rs (`Redundancy`, `DLSettings`, `DataRateRange`, `Frequency`, `ChannelMask::<2>::new_from_raw`).
+    // Reused, not emitted again: `DR` and `DR::from(u8)` (Gen.Region).
+    Unit {
+        module: "Gen.MacCmdFn",
+        file: "lorawan-encoding/src/maccommands.rs",
+        more_files: vec!["lorawan-encoding/src/types.rs", "lorawan-macros/src/lib.rs"],
+        imports: vec!["LoraVerif.Gen.Region"],
+        items: vec![
+            ExternEnum("DR"),
+            ExternFnX("u8::into_DR", "u8.into_DR", &[("v", "u8")], "DR", &[], true),
+            Newtype("Redundancy"),
+            Fn("Redundancy::new"),
+            Fn("Redundancy::channel_mask_control"),
+            Fn("Redundancy::number_of_transmissions"),
+            Newtype("DLSettings"),
+            Fn("DLSettings::new"),
+            Fn("DLSettings::rx1_dr_offset"),
+            Fn("DLSettings::rx2_data_rate"),
+            Newtype("DataRateRange"),
+            Fn("DataRateRange::new_from_raw"),
+            Fn("DataRateRange::can_build_from"),
+            Fn("DataRateRange::new"),
+            Fn("DataRateRange::max_data_rate"),
+            Fn("DataRateRange::min_data_rate"),
+            Newtype("Frequency"),
+            Fn("Frequency::new_from_raw"),
+            Fn("Frequency::value"),
+            Newtype("ChannelMask"),
+            CustomMulti(crate::maccmd::payloads),
+            EnumData("DownlinkMacCommand"),
+            EnumData("ParseError"),
+            StructPartial("MacCommands", &["data", "errored"]),
+            CustomMulti(crate::maccmd::framing),
+            CustomMulti(crate::maccmd::macro_accessors),
+            Fn("LinkADRReqPayload::data_rate"),
+            Fn("LinkADRReqPayload::tx_power"),
+            Fn("LinkADRReqPayload::redundancy"),
+            Fn("RXParamSetupReqPayload::dl_settings"),
+            Fn("RXParamSetupReqPayload::frequency"),
+            Fn("NewChannelReqPayload::frequency"),
+            Fn("NewChannelReqPayload::data_rate_range"),
+            Fn("RXTimingSetupReqPayload::delay"),
+            Fn("DlChannelReqPayload::frequency"),
+        ],
+    },
     ]
 }
 
